@@ -263,7 +263,74 @@ print(json.dumps(out))
 """
 
 
+REGISTRY_PROBE = """
+import sys, json, warnings
+warnings.simplefilter("ignore")
+sys.path.insert(0, sys.argv[1])
+from passlib import registry
+import passlib.hash
+import passlib.utils.handlers as uh
+out = {}
+# spellings with hyphens / capitals are documented to be normalised (with a warning) before the lazy lookup
+for alias, name in (("sha256-crypt", "sha256_crypt"), ("LDAP-Salted-SHA1", "ldap_salted_sha1"), ("PBKDF2_SHA512", "pbkdf2_sha512"), ("Phpass", "phpass")):
+    try:
+        out["alias:" + alias] = registry.get_crypt_handler(alias).name
+    except Exception as e:
+        out["alias:" + alias] = "ERR " + type(e).__name__
+# a lazy location whose hasher carries another name must not load under the registered name
+registry.register_crypt_handler_path("vp_dummy_alias", "passlib.handlers.md5_crypt:apr_md5_crypt")
+try:
+    h = registry.get_crypt_handler("vp_dummy_alias")
+    out["path-name-mismatch"] = "loaded " + h.name
+except ValueError:
+    out["path-name-mismatch"] = "refused"
+except Exception as e:
+    out["path-name-mismatch"] = "ERR " + type(e).__name__
+class vp_named_bar(uh.StaticHandler):
+    name = "vp_named_bar"
+    checksum_size = 1
+    checksum_chars = "x"
+    def _calc_checksum(self, secret):
+        return "x"
+try:
+    passlib.hash.vp_named_foo = vp_named_bar
+    out["proxy-setattr-mismatch"] = "accepted"
+except ValueError:
+    out["proxy-setattr-mismatch"] = "refused"
+except Exception as e:
+    out["proxy-setattr-mismatch"] = "ERR " + type(e).__name__
+passlib.hash.vp_named_bar = vp_named_bar
+out["proxy-setattr"] = registry.get_crypt_handler("vp_named_bar") is vp_named_bar and passlib.hash.vp_named_bar is vp_named_bar
+print(json.dumps(out))
+"""
+
+
+@oracle(PROPERTY, "registry_api")
+def o_registry_api(rec, case, soft=False):
+    """the name written to the registry is the name that loads the hasher: alias spellings, lazy locations, assignment through passlib.hash"""
+    import json
+    import subprocess
+    import sys
+
+    from ..common import REPO
+
+    r = subprocess.run([sys.executable, "-c", REGISTRY_PROBE, REPO], capture_output=True, text=True, timeout=120)
+    if r.returncode != 0:
+        rec.fail("C17/registry-api/probe-raises", "the registry probe raises", "registry_api", case, r.stderr[-400:], None, soft=soft)
+        return
+    got = json.loads(r.stdout.strip().splitlines()[-1])
+    want = {"alias:sha256-crypt": "sha256_crypt", "alias:LDAP-Salted-SHA1": "ldap_salted_sha1", "alias:PBKDF2_SHA512": "pbkdf2_sha512", "alias:Phpass": "phpass",
+            "path-name-mismatch": "refused", "proxy-setattr-mismatch": "refused", "proxy-setattr": True}
+    for k in want:
+        rec.ev()
+        rec.nt("registry-api", k)
+        if got.get(k) != want[k]:
+            rec.fail(f"C17/registry-api/{k.split(':')[0]}", f"registry: {k} gives {got.get(k)!r}", "registry_api", dict(case, probe=k), got.get(k), want[k], soft=soft)
+            return
+
+
 def t_import_order(rec, seed, tier):
+    o_registry_api(rec, {}, soft=True)
     """a shipped context is the same object whatever module of the package was imported first (fresh interpreter per order)"""
     import itertools
     import json
@@ -321,6 +388,7 @@ def o_presets(rec, case, soft=False):
 
 
 ORACLES["presets"] = o_presets
+ORACLES["registry_api"] = o_registry_api
 
 
 @oracle(PROPERTY, "host_context")
